@@ -448,7 +448,7 @@ fn get_summary_link(
 ) -> Result<Metablock> {
     let builder = LinkMetadataBuilder::new();
     let link_metadata = if layout.steps.is_empty() {
-        builder.build()?
+        builder.name(name.to_string()).build()?
     } else {
         builder
             .materials(
